@@ -1080,8 +1080,9 @@ func (e *MetaCDC) startReplicateAPIEvent(replicateCtx context.Context, entity *R
 					return
 				}
 				if !e.isRunningTask(taskID) {
+					// a left-over of a task that was paused meanwhile: the loop also serves the other tasks of this downstream
 					log.Warn("not running task", zap.Any("event", replicateAPIEvent), zap.String("task_id", taskID))
-					return
+					continue
 				}
 				if replicateAPIEvent.EventType == api.ReplicateCreateCollection {
 					writeCallback := NewWriteCallback(e.metaStoreFactory, e.rootPath, taskID)
@@ -1279,8 +1280,9 @@ func (e *MetaCDC) startReplicateDMLMsg(replicateCtx context.Context, entity *Rep
 					return
 				}
 				if !e.isRunningTask(taskID) {
+					// a left-over of a task that was paused meanwhile: the loop also serves the other tasks on this channel
 					log.Warn("not running task", zap.Any("pack", replicateMsg), zap.String("task_id", taskID))
-					return
+					continue
 				}
 				msgPack := replicateMsg.MsgPack
 				if msgPack == nil {
